@@ -17,7 +17,7 @@ from typing import Any, List, Optional
 
 from ..core import PropCheck
 
-KINDS = ["f", "g", "c", "gl"]
+KINDS = ["f", "g", "c", "gl", "glc"]
 
 
 def manual_walk():
@@ -73,6 +73,13 @@ def run_scenario(levels: List[str], queries_fn):
         elif kind == "gl":
             gr = greenlet.greenlet(functools.partial(level, k + 1))
             gr.switch()
+        elif kind == "glc":
+            # two greenlets, the middle one running a C function (the inner one's switch): it is alive, an ancestor of the
+            # caller, and holds no Python frame at all
+            inner = greenlet.greenlet(functools.partial(level, k + 1))
+            mid = greenlet.greenlet(inner.switch)
+            inner.parent = mid
+            mid.switch()
         else:
             raise ValueError(kind)
 
